@@ -287,6 +287,37 @@ func c01RouteGen(g *hx.Gen) {
 		c01Emit(g, []c01Site{mk("a.com"), mk("a.com/.well-known"), mk("")}, "a.com", p, 1)
 		c01Emit(g, []c01Site{mk("a.com")}, "zzz", p, 2)
 	}
+	// site path prefixes with multi-byte UTF-8 characters (the trie walks BYTES; only the host part of an
+	// address is lower-cased), request paths under them, beside them and their ASCII look-alikes
+	// (alphabets shared with c01.wire, where the same paths arrive raw / percent-encoded on the wire)
+	for _, set := range [][]string{
+		{"example.com", "example.com/caf\u00e9", "example.com/caf\u00e9/men\u00fc", "example.com/plain"},
+		{"example.com/\u65e5\u672c"},
+		{"example.com/\u65e5\u672c", "example.com/\u65e5", "*.example.com/\u65e5\u672c"},
+		{"example.com/caf", "example.com/caf\u00e9", "example.com/caf\u00e8", ""},
+	} {
+		for _, perm := range c01Perms(len(set)) {
+			sites := make([]c01Site, len(set))
+			for i, j := range perm {
+				sites[i] = mk(set[j])
+			}
+			for _, h := range []string{"example.com", "EXAMPLE.com:8080", "x.example.com", "zzz"} {
+				for _, p := range c01UReqPaths {
+					c01Emit(g, sites, h, p, 1)
+				}
+			}
+		}
+	}
+	for _, p1 := range c01UPaths {
+		for _, p2 := range c01UPaths {
+			if p1 == p2 {
+				continue
+			}
+			for i, p := range c01UReqPaths {
+				c01Emit(g, []c01Site{mk("a.com" + p1), mk("a.com" + p2), mk("/\u00e9")}, "A.com", p, 1+i%2)
+			}
+		}
+	}
 	// seeded random: up to 12 sites out of the alphabet with random spellings and requests aimed at them
 	N := 6000
 	if g.Thorough() {
